@@ -53,6 +53,16 @@ Check (C06_slice_stream_every_call :
   (rpres eq (fst (next_value ro alpha fast std_parse fuel s1)) (fst (next_value ro alpha fast std_parse fuel s2)) /\
    prel (snd (next_value ro alpha fast std_parse fuel s1)) (snd (next_value ro alpha fast std_parse fuel s2)))).
 
+Check (C06_slice_stream_interrupts_agree :
+  forall ro alpha fast std_parse (s : bytes) (inp : list event),
+  strip inp = bytes_events s ->
+  match from_trait ro alpha fast std_parse SrcSlice (bytes_events s), from_trait ro alpha fast std_parse SrcIo inp with
+  | POk a, POk b => a = b
+  | PErr (XErr (ESyntax c1 _ _)), PErr (XErr (ESyntax c2 _ _)) => c1 = c2
+  | PErr (XErr (EIo a)), PErr (XErr (EIo b)) => a = b
+  | _, _ => False
+  end).
+
 Check (C06_slice_stream_nonvacuous :
   let bad : bytes := [40; 97; 32; 255; 41]%N in       (* "(a \xFF)": not UTF-8 *)
   from_trait default_ro (fun _ => true) true dec_to_f64 SrcSlice (bytes_events bad) =
